@@ -241,7 +241,7 @@ fn check_truncations(ctx: &Ctx, syms: &[usize], stride: usize, st: &mut Stats) {
 
 pub fn run(ctx: &'static Ctx) -> (&'static str, Value, Vec<&'static str>) {
     let thorough = ctx.tier.thorough();
-    let maxlen = if thorough { 6 } else { 5 };
+    let maxlen = if thorough { 7 } else { 5 };
     let mut words_all: Vec<Vec<u64>> = Vec::new();
     for len in 0..=maxlen {
         words_all.extend(words(9, len));
